@@ -22,9 +22,17 @@ def run(ctx):
     small = {"Lens": "{0, 1, 55, 56}", "MaxDepth": 2, "MaxItems": 2, "MaxNodes": 3, "MaxDev": 1, "ScalarLen": 4}
     big = {"Lens": "{0, 1, 2, 55, 56, 255, 256, 65535, 65536}", "MaxDepth": 3, "MaxItems": 3, "MaxNodes": 4,
            "MaxDev": 1, "ScalarLen": 6}
-    r = ctx.model_check("codec", "MC_Rlp", "MC_Rlp.cfg", constants=ctx.pick(small, big), coverage=True,
-                        timeout=ctx.pick(400, 3000))
-    ctx.check_coverage(r, ACTIONS)
+    bs = []
+    if ctx.quick():
+        # quick: one TLC run checks the invariants on every state of the generator (no VIEW) and prints the behaviours
+        r = ctx.tlc("codec", "Gen_Rlp", "GenMC_Rlp.cfg", constants=dict(small, ScalarLen=10), coverage=True,
+                    timeout=900, label="Rlp (check + generate)")
+        ctx.check_coverage(r, ACTIONS)
+        bs = _dedup(vlib.parse_tagged(r.printed, "B"))
+        ctx.log("TLC codec/Gen_Rlp GenMC_Rlp.cfg: %d distinct states, %d behaviours, %.1fs" % (r.distinct, len(bs), r.wall))
+    else:
+        r = ctx.model_check("codec", "MC_Rlp", "MC_Rlp.cfg", constants=big, coverage=True, timeout=3000)
+        ctx.check_coverage(r, ACTIONS)
     #    typed values (codec.go encodeValue/decodeValue): every (type, value) of the universe is written as an
     #    item tree whose bytes parse back to it; maps in key order; (thorough) distinct values of a type that the
     #    decoder can tell apart have distinct item trees.  Codec hooks: consensus messages (lists with an optional
@@ -71,9 +79,8 @@ def run(ctx):
             hk = ctx.behaviours("codec", "Gen_RlpMsg", "Gen_RlpMsg.cfg",
                                 constants={"Level": 1, "Family": '"both"'}, timeout=1200)
             ty = ctx.behaviours("codec", "Gen_RlpTyped", "Gen_RlpTyped.cfg", constants={"Level": 2}, timeout=3000)
-        gsmall = dict(small, ScalarLen=10, Lens="{0, 1, 55, 56, 256}")
-        gbig = dict(big, ScalarLen=10, MaxNodes=4, MaxItems=2)
-        bs = ctx.behaviours("codec", "Gen_Rlp", "Gen_Rlp.cfg", constants=ctx.pick(gsmall, gbig), timeout=2400)
+            gbig = dict(big, ScalarLen=10, MaxNodes=4, MaxItems=2)
+            bs = ctx.behaviours("codec", "Gen_Rlp", "Gen_Rlp.cfg", constants=gbig, timeout=2400)
     # 3. replay into codec.RLP (streaming API + MarshalToBytes/UnmarshalFromBytes)
     if bs:
         inp = ctx.path("in", "rlp.ndjson")
